@@ -15,7 +15,7 @@ FUNCTIONS = ["xgcm.grid:Grid.set_metrics", "xgcm.grid:Grid.get_metric", "xgcm.me
              "xgcm.grid:Grid.cumint", "xgcm.grid:Grid._1d_grid_ufunc_dispatch", "xgcm.grid:Grid.cumsum"]
 BOUNDS = {
     "quick": {"selection": "2 axes with positions X {center,left}, Y {center,right}; pool of 8 metric variables (2 per single axis, 4 areas); every registry of <= 3 variables (92), registered in pool order; 4 array positions x requests (X),(Y),(X,Y),(Y,X); N=2; data and every metric cell symbolic (positive)",
-              "operations": "integrate (all axis orders), average (constant field and general), derivative, metric_weighted diff/interp/cumsum on a fully registered 2-axis grid, N in {2,3}"},
+              "operations": "integrate (all axis orders), average (constant field and general), derivative, metric_weighted diff/interp/min/cumsum (list, tuple, bare-name and per-axis-mapping spellings, the last in a two-axis call) on a fully registered 2-axis grid, N in {2,3}"},
     "thorough": {"selection": "+ reversed registration order; 3 axes X,Y (center,left), Z (center,outer): pool of 26, every registry of <= 2 variables and a seeded sample of 600 registries of 3-4; 8 array positions x 7 axis subsets",
                  "operations": "+ 3 axes"},
 }
@@ -328,6 +328,32 @@ def case_ops(W, cfg):
             want = (xr.DataArray(c1, dims=rdims) / m_out).transpose(*rdims)
             r = grid.cumsum(da, ax, to=to, boundary="fill", fill_value=fv, metric_weighted=list(wsub))
             W.equal("metric_weighted-cumsum:%s:%s" % ("".join(wsub), lab), r.transpose(*rdims).data, want.data)
+            # other documented spellings of the same request: a bare axis name, a tuple, and a per-axis mapping in a call
+            # over two axes (weighted along the first, unweighted - None - along the second)
+            spellings = [("tuple", tuple(wsub))] + ([("str", wsub[0])] if len(wsub) == 1 else [])
+            o1 = apply_along(am, i, lambda v: spec_1d(v, frm, to, N, "min", "fill", fv))
+            want = (xr.DataArray(o1, dims=rdims) / m_out).transpose(*rdims)
+            for sp, mw in spellings:
+                r = grid.min(da, ax, to=to, boundary="fill", fill_value=fv, metric_weighted=mw)
+                W.equal("metric_weighted-spelling-%s:%s:%s" % (sp, "".join(wsub), lab), r.transpose(*rdims).data, want.data, record=False)
+            others = [x for x in axes if x != ax]
+            if others:
+                ax2 = others[0]
+                frm2 = array_pos[ax2]
+                to2 = [p_ for p_ in POSN[ax2] if p_ != frm2][0]
+                o1 = apply_along(am, i, lambda v: spec_1d(v, frm, to, N, "interp", "fill", fv))
+                step1 = (xr.DataArray(o1, dims=rdims) / m_out).transpose(*rdims)
+                i2 = rdims.index(DIM[(ax2, frm2)])
+                o2 = apply_along(step1.data, i2, lambda v: spec_1d(v, frm2, to2, N, "interp", "fill", fv))
+                rdims2 = tuple(DIM[(ax2, to2)] if d == DIM[(ax2, frm2)] else d for d in rdims)
+                mwmap = {x: None for x in axes}
+                mwmap[ax] = tuple(wsub)
+                tomap = {x: None for x in axes}
+                tomap[ax], tomap[ax2] = to, to2
+                r = grid.interp(da, [ax, ax2], to=tomap, boundary="fill", fill_value=fv, metric_weighted=mwmap)
+                W.require("metric_weighted-mapping-dims:%s:%s" % ("".join(wsub), lab), tuple(r.dims) == rdims2, "%s want %s" % (r.dims, rdims2))
+                if tuple(r.dims) == rdims2:
+                    W.equal("metric_weighted-mapping-two-axes:%s:%s" % ("".join(wsub), lab), r.data, o2, record=False)
 
 
 def finding_key(cfg, v):
